@@ -238,6 +238,9 @@ class HistogramDensityMethod(BatchDetector):
         )  # TODO: subsequent operations expect dataframes, not numpy arrays
         # Initialize attributes
         self.reference = copy.deepcopy(X)
+        # the new epoch starts here: thresholds must not be scaled by the
+        # index of an earlier drift
+        self._lambda = self.total_batches
         self.reset()
 
     def update(self, X, y_true=None, y_pred=None):
